@@ -144,6 +144,10 @@ type Exec struct {
 	// OnBoundary is called after commit, rollback, failed commit and reopen with the kind of boundary.
 	OnBoundary func(x *Exec, kind string) *Fail
 
+	Mon      *Monitor
+	LastKind string // kind of the most recent boundary
+	opening  bool
+
 	keep [][]byte // values handed to Put stay alive and untouched
 }
 
@@ -221,7 +225,9 @@ func (x *Exec) open(cfg Cfg) (f *Fail) {
 			f = &Fail{Kind: "panic", At: x.NOps, Op: "open", Msg: fmt.Sprintf("%v\n%s", r, trimStack(debug.Stack()))}
 		}
 	}()
+	x.opening = true
 	db, err := bolt.Open(x.Path, 0600, cfg.Options())
+	x.opening = false
 	if err != nil {
 		return &Fail{Kind: "error", At: x.NOps, Op: "open", Msg: "open: " + ErrName(err)}
 	}
@@ -332,6 +338,9 @@ func (x *Exec) Do(op Op) (f *Fail) {
 			x.Poisoned = true
 			f = &Fail{Kind: "panic", At: idx, Op: op.String(), Msg: fmt.Sprintf("%v | %s", r, trimStack(debug.Stack()))}
 		}
+		if (f == nil || f.Kind == "error") && x.Mon != nil && x.Mon.Fail != nil {
+			f = x.Mon.Fail
+		}
 		if f != nil && f.At < 0 {
 			f.At = idx
 		}
@@ -369,11 +378,15 @@ func (x *Exec) Do(op Op) (f *Fail) {
 		}
 		x.W, x.WM = tx, x.Committed.Clone()
 		x.WDirty = map[*refmodel.Node]bool{}
+		x.Notes = nil
 		if uint64(tx.ID()) != x.CommittedID+1 {
 			return mm("writer id %d, expected %d", tx.ID(), x.CommittedID+1)
 		}
 		if !tx.Writable() {
 			return mm("Writable() false on write tx")
+		}
+		if x.Mon != nil {
+			return x.Mon.AfterBegin()
 		}
 		return nil
 	case "commit":
@@ -393,8 +406,20 @@ func (x *Exec) Do(op Op) (f *Fail) {
 			}
 			return &Fail{Kind: "error", At: idx, Op: op.String(), Msg: "commit: " + ErrName(err)}
 		}
+		var prev map[uint64]bool
+		if x.Mon != nil {
+			prev = x.Mon.PageSets[x.CommittedID]
+		}
 		x.Committed, x.WM = x.WM, nil
 		x.CommittedID++
+		if x.Mon != nil {
+			if f := x.Mon.snapshot("after commit"); f != nil {
+				return f
+			}
+			if f := x.Mon.AfterCommit(prev); f != nil {
+				return f
+			}
+		}
 		return x.boundary("commit")
 	case "rollback":
 		if x.W == nil {
@@ -460,6 +485,11 @@ func (x *Exec) Do(op Op) (f *Fail) {
 		}
 		if x.CommittedID < before || x.CommittedID > before+1 {
 			return mm("txid after reopen %d, before %d", x.CommittedID, before)
+		}
+		if x.Mon != nil {
+			if f := x.Mon.snapshot("after reopen"); f != nil {
+				return f
+			}
 		}
 		return x.boundary("reopen")
 	}
@@ -766,6 +796,7 @@ func (x *Exec) CheckCommitted(what string) *Fail {
 
 // boundary runs the checks due at a transaction boundary.
 func (x *Exec) boundary(kind string) *Fail {
+	x.LastKind = kind
 	if x.CheckLvl >= 1 {
 		if f := x.CheckCommitted("after " + kind); f != nil {
 			return f
